@@ -101,6 +101,12 @@ class View:
                     # position / speed assigned to the last element since
                     # the previous run (SI), None = untouched
                     'state_in': pending_state,
+                    # rules of the controller at this run (a rule may have
+                    # been added between two runs)
+                    'rules_active': [
+                        i for i, r_ in enumerate(scn.get('rules') or [])
+                        if (r_.get('from_run') or 0) <=
+                        rec.get('run_ordinal', 0)],
                 }
                 pending_state = None
                 prev_solver = rec['solver_id']
